@@ -55,6 +55,12 @@ fn get_pid_listeners<'a>() -> &'a Arc<DashMap<ActorId, ActorCell>> {
 }
 
 pub(crate) fn register_pid(id: ActorId, actor: ActorCell) -> Result<(), super::ActorRegistryErr> {
+    #[cfg(ractor_verif)]
+    if crate::verif::take_pid_fault() {
+        return Err(super::ActorRegistryErr::AlreadyRegistered(format!(
+            "PID {id} already alive (injected)"
+        )));
+    }
     if id.is_local() {
         match get_pid_registry().entry(id) {
             Occupied(_o) => Err(super::ActorRegistryErr::AlreadyRegistered(format!(
